@@ -104,6 +104,26 @@ Theorem C08_consensus_benchmark_between_data_sources : forall ver base ss f v,
 Proof. exact consensus_benchmark_between_data_sources. Qed.
 Print Assumptions C08_consensus_benchmark_between_data_sources.
 
+Theorem C08_consensus_bid_between_data_sources : forall base ss f v, senders_ok ss ->
+  let txs := map (fun pt => (p_bid (fst pt), snd pt)) (received 3 base ss) in
+  (faulty_count (tvalid txs) < honest_count (tvalid txs))%nat -> consensus_price (map fst txs) f = Ok v ->
+  exists n1 d1 n2 d2 lo hi, In (Correct n1 d1) ss /\ In (Correct n2 d2) ss /\ ds_bid d1 = Some lo /\ ds_bid d2 = Some hi /\ lo <= v <= hi.
+Proof. exact consensus_bid_between_data_sources. Qed.
+Theorem C08_consensus_ask_between_data_sources : forall base ss f v, senders_ok ss ->
+  let txs := map (fun pt => (p_ask (fst pt), snd pt)) (received 3 base ss) in
+  (faulty_count (tvalid txs) < honest_count (tvalid txs))%nat -> consensus_price (map fst txs) f = Ok v ->
+  exists n1 d1 n2 d2 lo hi, In (Correct n1 d1) ss /\ In (Correct n2 d2) ss /\ ds_ask d1 = Some lo /\ ds_ask d2 = Some hi /\ lo <= v <= hi.
+Proof. exact consensus_ask_between_data_sources. Qed.
+Theorem C08_consensus_native_fee_between_computed_fees : forall ver base ss f v,
+  ver = 2 \/ ver = 3 \/ ver = 4 -> senders_ok ss ->
+  let txs := map (fun pt => (p_native (fst pt), snd pt)) (received ver base ss) in
+  (faulty_count (tfee txs) < honest_count (tfee txs))%nat -> consensus_fee (map fst txs) f = Ok v ->
+  0 <= v /\ exists n1 d1 n2 d2 lo hi, In (Correct n1 d1) ss /\ In (Correct n2 d2) ss /\
+                            fee_val base (ds_native d1) = (lo, true) /\ fee_val base (ds_native d2) = (hi, true) /\ lo <= v <= hi.
+Proof. exact consensus_native_fee_between_computed_fees. Qed.
+Print Assumptions C08_consensus_bid_between_data_sources.
+Print Assumptions C08_consensus_native_fee_between_computed_fees.
+
 (* v1: the same, with the observations a correct node's parser keeps (block lists well-formed) *)
 Theorem C08_consensus_benchmark1_between_data_sources : forall ss f v, senders1_ok ss ->
   let txs := map (fun pt => (q_bm (fst pt), snd pt)) (received_v1 ss) in
